@@ -75,6 +75,9 @@ class Scanner:
                     if o.is_const():
                         if "bool" in o.j:
                             self.init[l] = _b(o.j["bool"])
+                        elif o.const_int() is not None and o.j.get("ty") == "u8":
+                            # a byte-valued state variable (e.g. `previous`): abstract byte class
+                            self.init[l] = ("byte", BYTE.get(o.const_int(), ("lit", o.const_int())))
                         elif o.const_int() is not None:
                             self.init[l] = ("int", o.const_int())
             if l not in self.init:
